@@ -409,7 +409,16 @@ func propC19(w *World, r *Report, tier string) {
 			for root, site := range s.Mods {
 				if root.Kind == "param" && root.Idx == 0 {
 					pure = false
-					r.Fail("eff.getters-pure", name, site.What, site.Pos, "a read-only operation on a decoded message writes its receiver ("+site.What+" in "+site.Fn+")", nil)
+					// one finding per distinct writer inside this function (a direct store to a
+					// field, or a callee that writes what it is handed), so that a new write in a
+					// function that already has a recorded one is still reported
+					writers := receiverWriters(e, f)
+					if len(writers) == 0 {
+						writers = []recvWriter{{site.What, site.Pos}}
+					}
+					for _, wr := range writers {
+						r.Fail("eff.getters-pure", name, wr.what, wr.pos, "a read-only operation on a decoded message writes its receiver ("+wr.what+")", nil)
+					}
 				}
 			}
 			if pure {
@@ -436,4 +445,77 @@ func propC19(w *World, r *Report, tier string) {
 		r.Extra["callees_without_contract_assumed_to_write_their_arguments"] = e.Unknown
 	}
 	r.Extra["getters_and_encoders_checked"] = nGet
+}
+
+
+type recvWriter struct {
+	what string
+	pos  token.Pos
+}
+
+// receiverWriters lists the distinct ways in which f writes memory rooted at its receiver:
+// direct stores (named by the field or element written) and calls to repository functions whose
+// summary says they write the argument that carries receiver memory.
+func receiverWriters(e *Effects, f *ssa.Function) []recvWriter {
+	seen := map[string]bool{}
+	var out []recvWriter
+	add := func(what string, pos token.Pos) {
+		if !seen[what] {
+			seen[what] = true
+			out = append(out, recvWriter{what, pos})
+		}
+	}
+	fromRecv := func(v ssa.Value) bool {
+		for root := range e.rootsOf(v, 0) {
+			if root.Kind == "param" && root.Idx == 0 {
+				return true
+			}
+		}
+		return false
+	}
+	for _, b := range f.Blocks {
+		for _, ins := range b.Instrs {
+			switch x := ins.(type) {
+			case *ssa.Store:
+				if _, isAlloc := addrBase(x.Addr).(*ssa.Alloc); isAlloc {
+					continue
+				}
+				if fromRecv(x.Addr) {
+					add("store to "+addrText(x.Addr), x.Pos())
+				}
+			case ssa.CallInstruction:
+				com := x.Common()
+				args := e.callArgs(com)
+				for _, callee := range e.callees(x) {
+					cs := e.Summary(callee)
+					if cs == nil {
+						continue
+					}
+					for root := range cs.Mods {
+						if root.Kind == "param" && root.Idx < len(args) && fromRecv(args[root.Idx]) {
+							add("call of "+callee.Name()+" (writes its argument)", x.Pos())
+						}
+					}
+				}
+			}
+		}
+	}
+	sort.Slice(out, func(i, j int) bool { return out[i].what < out[j].what })
+	return out
+}
+
+// addrText names the field / element an address designates.
+func addrText(v ssa.Value) string {
+	switch x := v.(type) {
+	case *ssa.FieldAddr:
+		st := x.X.Type().Underlying().(*types.Pointer).Elem().Underlying().(*types.Struct)
+		return addrText(x.X) + "." + st.Field(x.Field).Name()
+	case *ssa.IndexAddr:
+		return addrText(x.X) + "[i]"
+	case *ssa.UnOp:
+		return "*" + addrText(x.X)
+	case *ssa.Parameter:
+		return x.Name()
+	}
+	return "memory"
 }
